@@ -14,6 +14,18 @@ from autobahn.websocket.protocol import WebSocketProtocol as WSP
 KEY = b"\x01\x02\x03\x04"
 
 
+def why_of(p):
+    """why the connection ended uncleanly - from the protocol's flags; the wording of wasNotCleanReason is only consulted
+    to tell a ping timeout from a deliberate failure when no flag says so"""
+    if getattr(p, "wasOpenHandshakeTimeout", False):
+        return "open-to"
+    if getattr(p, "wasServerConnectionDropTimeout", False):
+        return "drop-to"
+    if getattr(p, "wasCloseHandshakeTimeout", False):
+        return "close-to"
+    return why_class(p.wasNotCleanReason)
+
+
 def why_class(s):
     if s is None:
         return "none"
@@ -96,7 +108,7 @@ class Endpoint:
                 drop = "abort" if e[2] else "lose"
         closes = [dict(clean=e[2], code=e[3] if isinstance(e[3], int) else 0) for e in self.log if e[0] == "onClose"]
         return dict(st=wsx.STATE[p.state], cbm=bool(p.closedByMe), fbm=bool(p.failedByMe), dbm=bool(p.droppedByMe),
-                    clean=bool(p.wasClean), why=why_class(p.wasNotCleanReason), up=self.up, drop=drop,
+                    clean=bool(p.wasClean), why=why_of(p), up=self.up, drop=drop,
                     nclose=self.counts["close"], pings=self.counts["ping"], ndata=self.counts["data"], npong=self.counts["pong"],
                     closes=closes,
                     tOpen=due_of(p.openHandshakeTimeoutCall), tClose=due_of(p.closeHandshakeTimeoutCall),
